@@ -415,6 +415,20 @@ func runC10(c *Ctx) {
 			s.Signature = toB64(b)
 			return true
 		})
+		// the same two numbers in a longer spelling: r and s each with a zero octet in front (an ECDSA signature is exactly
+		// twice the size of the curve's field, RFC 6605 section 4); for the other algorithms, a zero octet in front of the lot
+		alter("rrsig-signature-zero-padded", func(s *dns.RRSIG, k *dns.DNSKEY, set []dns.RR) bool {
+			b := fromB64(s.Signature)
+			if s.Algorithm == dns.ECDSAP256SHA256 || s.Algorithm == dns.ECDSAP384SHA384 {
+				h := len(b) / 2
+				p := append([]byte{0}, b[:h]...)
+				p = append(append(p, 0), b[h:]...)
+				s.Signature = toB64(p)
+			} else {
+				s.Signature = toB64(append([]byte{0}, b...))
+			}
+			return true
+		})
 		alter("rrsig-class", func(s *dns.RRSIG, k *dns.DNSKEY, set []dns.RR) bool { s.Hdr.Class = 3; return true })
 		alter("key-not-zone", func(s *dns.RRSIG, k *dns.DNSKEY, set []dns.RR) bool {
 			k.Flags &^= dns.ZONE
